@@ -168,8 +168,35 @@ where
     }
     let ol = idd.old_lookup();
     let nl = idd.new_lookup();
+    let big = or.len() + nr.len() > 600;
     let r = guard(|| {
         let mut fails: Vec<String> = Vec::new();
+        if big {
+            // too many pairs to enumerate: 60 000 sampled pairs + every adjacent pair
+            let mut rng = Rng::new(or.len() as u64 * 31 + nr.len() as u64);
+            let pick = |rng: &mut Rng, r: &Range<usize>| r.start + rng.below(r.len());
+            for _ in 0..20_000 {
+                let (i, j) = (pick(&mut rng, &or), pick(&mut rng, &or));
+                if (ol[i] == ol[j]) != (a[i] == a[j]) {
+                    fails.push(format!("old[{}] vs old[{}]: items equal = {}, ids {:?} / {:?}", i, j, a[i] == a[j], ol[i], ol[j]));
+                }
+                let (i, j) = (pick(&mut rng, &or), pick(&mut rng, &nr));
+                if (ol[i] == nl[j]) != (a[i] == b[j]) {
+                    fails.push(format!("old[{}] vs new[{}]: items equal = {}, ids {:?} / {:?}", i, j, a[i] == b[j], ol[i], nl[j]));
+                }
+                let (i, j) = (pick(&mut rng, &nr), pick(&mut rng, &nr));
+                if (nl[i] == nl[j]) != (b[i] == b[j]) {
+                    fails.push(format!("new[{}] vs new[{}]: items equal = {}, ids {:?} / {:?}", i, j, b[i] == b[j], nl[i], nl[j]));
+                }
+            }
+            // the number of distinct ids must equal the number of distinct items
+            let ids: std::collections::HashSet<Int> = or.clone().map(|i| ol[i]).chain(nr.clone().map(|j| nl[j])).collect();
+            let items: std::collections::HashSet<u32> = or.clone().map(|i| a[i]).chain(nr.clone().map(|j| b[j])).collect();
+            if ids.len() != items.len() {
+                fails.push(format!("{} distinct ids for {} distinct items", ids.len(), items.len()));
+            }
+            return fails;
+        }
         // ids equal <=> items equal, within and across sides
         for i in or.clone() {
             for j in or.clone() {
@@ -396,6 +423,53 @@ pub fn families() -> Vec<Box<dyn Family>> {
                 out.sample(|| format!("{} head lines, block of {} lines replaced by {} lines, {} tail lines", head, l1, l2, tail));
                 out.nontrivial(&(head, tail, l1, l2));
                 text_case(&a, &b, &[0], &[Algorithm::Myers, Algorithm::Patience], out);
+            },
+        ),
+        family(
+            "identify_distinct_capacity",
+            "IdentifyDistinct at the exact capacity of its integer type: 255 and 256 distinct items for u8, 65535 and 65536 for u16 (ids 0..=MAX are all needed and all fit), at non-zero offsets; ids vs equality on sampled pairs, ranges, diff through the lookups vs direct diff",
+            true,
+            1,
+            |cfg| if cfg.tiny { 2 } else { 8 },
+            |idx, cfg, out| {
+                let mut rng = Rng::for_case(cfg.seed, "c14.idd_capacity", idx);
+                let (bits16, distinct) = match idx % 4 {
+                    0 => (false, 255usize),
+                    1 => (false, 256),
+                    2 => (true, 65_535),
+                    _ => (true, 65_536),
+                };
+                let distinct = if cfg.tiny { 250 + (idx as usize % 2) * 6 } else { distinct };
+                // old holds distinct - k distinct items (a few repeated); new replaces a block of k
+                // of them by k fresh items: together exactly `distinct` items, small edit distance
+                let k = 1 + rng.below(40);
+                let n_old = distinct - k;
+                let mut a: Vec<u32> = (0..n_old as u32).collect();
+                let at = rng.below(n_old - k + 1);
+                let mut b: Vec<u32> = a[..at].to_vec();
+                b.extend((0..k as u32).map(|i| 1_000_000 + i));
+                b.extend_from_slice(&a[at + k..]);
+                for v in [&mut a, &mut b] {
+                    for _ in 0..rng.below(6) {
+                        let i = rng.below(v.len());
+                        let x = v[i];
+                        v.insert(i, x);
+                    }
+                }
+                let (po, pn) = (1 + rng.below(3), rng.below(3));
+                let mut pa = vec![a[0]; po];
+                pa.extend_from_slice(&a);
+                let mut pb = vec![b[0]; pn];
+                pb.extend_from_slice(&b);
+                let (or, nr) = (po..po + a.len(), pn..pn + b.len());
+                out.sample(|| format!("{} distinct items for {}: old {} items, new {} items, offsets {} / {}", distinct, if bits16 && !cfg.tiny { "u16" } else { "u8" }, a.len(), b.len(), po, pn));
+                out.nontrivial(&(distinct, idx));
+                out.count("capacity_cases");
+                if bits16 && !cfg.tiny {
+                    idd_case::<u16>("u16", &pa, or, &pb, nr, Algorithm::Myers, out);
+                } else {
+                    idd_case::<u8>("u8", &pa, or, &pb, nr, Algorithm::Myers, out);
+                }
             },
         ),
         family(
